@@ -441,6 +441,9 @@ void h_utf_catc(void)
     ND(a_u32, c, u32);
     unsigned char enc[8];
     unsigned n = a_utf_encode(c, enc);
+    { a_u32 x = c & 0x7FFFFFFFu; /* the UTF-8 table, independent of the library's encoder */
+      unsigned want = x == 0 ? 0 : x < 0x80 ? 1 : x < 0x800 ? 2 : x < 0x10000 ? 3 : x < 0x200000 ? 4 : x < 0x4000000 ? 5 : 6;
+      ASSERT(n == want, "utf_catc: the appended length is the UTF-8 table's length for the code point"); }
     int rc = a_utf_catc(&S, c);
     if (rc != A_SUCCESS) { ASSERT(rc == A_OMEMORY && verif_alloc_failed, "utf_catc: fails only when the allocation failed"); UNCHANGED("failed utf_catc"); }
     else
